@@ -165,6 +165,7 @@ def run_unit(unit) -> UnitResult:
     real_open = open
     try:
         alpha = [0, 1, 2] if not unit.get("extreme") else [float("-inf"), 0, float("inf")]
+        prev_log = None
         for seq in itertools.product(alpha, repeat=L):
             for conformance in ((False, True) if seq == tuple([0, 1, 2, 1, 0][:L]) else (False,)):
                 dev = RawDevice()
@@ -292,7 +293,16 @@ def run_unit(unit) -> UnitResult:
                         if unit.get("other_problem_first") and what == "new":
                             # the individual already carries a fitness for another problem (with other values)
                             SequentialEvaluator().evaluate(other_problem, [ind])
-                        tracker.evaluate([ind])
+                        try:
+                            tracker.evaluate([ind])
+                        except Exception as ex:  # noqa: the fitness function and the callbacks are the harness's and do not raise
+                            r.add_violation(Violation(PROP, "Tracker.evaluate", "registration-raised",
+                                                      {"exc": type(ex).__name__, "simplegp": unit["extra"] == "simplegp2"},
+                                                      {"unit": unit, "sequence": list(seq), "after_registration": e},
+                                                      f"objectives={nobj} fields={unit['fields']} extra={unit['extra']} history {seq[: i + 1]}: registering the "
+                                                      f"individual raised {type(ex).__name__}: {str(ex)[:120]} (the row is lost and the search dies)"))
+                            ok = False
+                            break
                         r.executions += 1
                         # which registrations must be logged is decided by an independent reference, not by the
                         # tracker's own flag: strict improvements (single objective) / not worse than the best
@@ -359,13 +369,29 @@ def run_unit(unit) -> UnitResult:
                                                           {"unit": unit, "sequence": list(seq), "writes": k},
                                                           f"history {seq}: image at registration boundary {nreg}: {why[1]}"))
                                 break
-                    rec.csv_file.close()
+                    # the recorder of this history stays open while the next history runs (two searches of one process, the
+                    # first log read again afterwards): nothing a later tracker does may reach an earlier log
+                    if prev_log is not None:
+                        pdev, pfinal, prec, pseq = prev_log
+                        r.count("earlier_logs_read_again_after_the_next_search")
+                        if pdev.content() != pfinal:
+                            r.add_violation(Violation(PROP, "CSVSearchRecorder", "earlier-log-changed-by-a-later-search",
+                                                      {"simplegp": unit["extra"] == "simplegp2"}, {"unit": unit, "sequence": list(pseq), "next_sequence": list(seq)},
+                                                      f"extra={unit['extra']}: the log of history {pseq} had {len(pfinal)} bytes when its search ended and "
+                                                      f"{len(pdev.content())} bytes after the next search (history {seq}) of the same process"))
+                        prec.csv_file.close()
+                    prev_log = (dev, final, rec, seq)
                 finally:
                     recmod.open = real_open
         r.states = 3 ** L
         r.samples.append({"config": unit, "histories": 3 ** L})
     finally:
         recmod.__dict__.pop("open", None)
+        if prev_log is not None:
+            try:
+                prev_log[2].csv_file.close()
+            except Exception:  # noqa
+                pass
         shutil.rmtree(tmp, ignore_errors=True)
     return r
 
